@@ -36,7 +36,8 @@ P = {'id': 'C17',
               'ta_shard_is_lru',
               'ta_one_thread_is_lru',
               'ta_cross_thread_get_refuted',
-              'hash_routing_is_routed'],
+              'hash_routing_is_routed',
+              'page_cache_size_le_cap'],
  'trusted': ['modelled (M+S): src/containers/specialized/lru_map.rs (LruList insert_head/remove/move_to_head, LruMap get/put/remove/contains_key/len/clear/evict_lru/allocate_node), '
              'src/containers/specialized/concurrent_lru_map.rs (select_shard for Hash with the hash as a parameter, RoundRobin with the global counter, ThreadAffinity with the thread-id hash as a parameter; per-shard dispatch, clear, len), '
              'src/cache/basic_cache.rs (LruPageCache read with the file-size clamp and the page loop, get_page with invalidation tracker and eviction, prefetch, read_with_prefetch, invalidate_page/range with the page arithmetic as written, '
